@@ -222,6 +222,9 @@ pub struct Profile {
     pub coop: bool,
     /// One medium graph in `fan_den` is a fan (hub before / sink after all others).
     pub fan_den: usize,
+    /// Size ladder: the graph has exactly this many functions (all shapes of the
+    /// wide class, whatever the size).
+    pub force_n: Option<usize>,
 }
 
 impl Profile {
@@ -242,6 +245,7 @@ impl Profile {
             aborts: false,
             coop: false,
             fan_den: 6,
+            force_n: None,
         }
     }
     pub fn with_apis(mut self, shapes: &[Shape], w_with: usize, w_plain: usize) -> Self {
@@ -290,11 +294,13 @@ pub fn size_class(n: usize) -> &'static str {
 /// a hidden random permutation, so nothing is filtered.
 pub fn decode_spec(t: &mut Tape, p: &Profile) -> GraphSpec {
     let class1000 = t.below(1000);
-    let huge = class1000 >= 1000 - p.permille_huge;
+    let huge = p.force_n.is_none() && class1000 >= 1000 - p.permille_huge;
     let class = class1000 / 10;
-    let wide = huge || class >= 100 - p.pct_wide;
+    let wide = p.force_n.is_some() || huge || class >= 100 - p.pct_wide;
     let medium = !wide && class >= 100 - p.pct_wide - p.pct_medium;
-    let n = if huge {
+    let n = if let Some(n) = p.force_n {
+        n
+    } else if huge {
         257 + t.below(64)
     } else if wide {
         // 41..=140, one in five exactly at a power-of-two boundary
